@@ -793,7 +793,7 @@ mod proofs {
 
     // reset arm: queue empty + reset scheduled => exactly one RST_STREAM(id, code), and the state becomes a
     // real reset so it can never be emitted twice.
-    // @harness id=prio_pop_frame_reset props=C17,C04,C08 kind=bounded bound=streams=1 tier=thorough fn=Prioritize::pop_frame timeout=5400
+    // @harness id=prio_pop_frame_reset props=C17,C04,C08 kind=bounded bound=streams=1 tier=attempt fn=Prioritize::pop_frame timeout=5400
     #[kani::proof]
     #[kani::unwind(3)]
     fn prio_pop_frame_reset() {
